@@ -265,6 +265,10 @@ class Deriv:
     def has_call(self, *names) -> bool:
         return any(c in names or c.split(".")[-1] in names for c in self.calls)
 
+    def reads(self, var: str) -> bool:
+        """the variable / attribute chain is read on the way (whether or not it is also defined locally)"""
+        return var in self.attrs or var in self.params or var in self.free or any(d.var == var for d in self.defs)
+
     def mentions(self, *names) -> bool:
         s = self.params | self.attrs | self.free
         return any(n in s for n in names)
